@@ -485,7 +485,12 @@ def judge_vec(inp, obs, lr):
             if not ok:
                 return {"expected": {"model_row": b.tolist()}, "observed": {"impl_row": a.tolist()}, "tags": {"op": "normalize", "null_row": nn == 0}}
         return None
-    if not O.allclose(r, m, 1e-8 if inp["op"] == "segment_aux" else 1e-11):
+    if inp["op"] == "segment_aux":
+        # ideal endpoints are points of projective space: each row up to a non-zero scalar, the pair in either order
+        if not O.aux_proj_eq("segment", r, m, 1e-8):
+            return {"expected": {"model": m.tolist()}, "observed": obs["r"], "tags": {"op": inp["op"]}}
+        return None
+    if not O.allclose(r, m, 1e-11):
         return {"expected": {"model": m.tolist()}, "observed": obs["r"], "tags": {"op": inp["op"]}}
     return None
 
